@@ -245,3 +245,77 @@ def rule_sm_sign(ctx, prog, chk, family, famre, rule_name="SM-SIGN"):
             else:
                 chk.ok(rule_name, fn, nm, "every path honours the sign of `%s` (sign test, reduction modulo the order, delegation) or the term is moot" % nm, line=fn.line)
     return n
+
+
+# ---------------------------------------------------------------------- LOOP-BITS
+def rule_loop_bits(ctx, prog, chk, family, exceptions=None, rule_name="LOOP-BITS"):
+    """a sibling that scans the bits of a scalar/exponent parameter E with bn_get_bit(E, i) bounds i by the length of E:
+    the index (or the condition of the loop it runs in) derives from bn_bits(E).  A scan bounded by a constant or by the
+    length of the group order drops the high bits of longer values."""
+    n = 0
+    exceptions = exceptions or {}
+    for fn in family:
+        exps = exponent_params(fn)
+        if not exps:
+            continue
+        derived = {}
+        for rnd in range(3):
+            for el in fn.all_elements():
+                for sub in ir.walk(fn, el.e):
+                    if sub[0] not in ("d", "="):
+                        continue
+                    if sub[0] == "d":
+                        tgt, rhs = sub[1], sub[2]
+                    else:
+                        l = ir.strip_casts(sub[1])
+                        tgt, rhs = (l[1] if isinstance(l, list) and l[0] == "v" else None), sub[2]
+                    if tgt is None or rhs is None:
+                        continue
+                    for c in ir.calls_in(fn, rhs, follow_refs=True):
+                        if c[1] == "bn_bits" and c[2]:
+                            k = key(fn, c[2][0])
+                            for E in exps:
+                                if k == ("v", E):
+                                    derived.setdefault(tgt, set()).add(E)
+                    for s2 in ir.walk(fn, rhs, follow_refs=True):
+                        if s2[0] == "v" and s2[1] in derived and s2[1] != tgt:
+                            derived.setdefault(tgt, set()).update(derived[s2[1]])
+        # index variables compared with bn_bits(E) (or a derived local) in a branch condition
+        for b in fn.blocks.values():
+            t = b.term
+            if not t or t.get("c") is None:
+                continue
+            vs = [s2[1] for s2 in ir.walk(fn, t["c"], follow_refs=True) if s2[0] == "v"]
+            es = set()
+            for c in ir.calls_in(fn, t["c"], follow_refs=True):
+                if c[1] == "bn_bits" and c[2]:
+                    k = key(fn, c[2][0])
+                    for E in exps:
+                        if k == ("v", E):
+                            es.add(E)
+            for v in vs:
+                es |= derived.get(v, set())
+            if es:
+                for v in vs:
+                    derived.setdefault(v, set()).update(es)
+        seen = set()
+        for el in fn.all_elements():
+            for c in ir.calls_in(fn, el.e):
+                if c[1] != "bn_get_bit" or len(c[2]) != 2:
+                    continue
+                k = key(fn, c[2][0])
+                for E in exps:
+                    if k != ("v", E) or (E, el.line) in seen:
+                        continue
+                    seen.add((E, el.line))
+                    n += 1
+                    idx = [s2[1] for s2 in ir.walk(fn, c[2][1], follow_refs=True) if s2[0] == "v"]
+                    nm = fn.vars[E]["n"]
+                    base = fn.name.split("__")[-1]
+                    if any(E in derived.get(v, ()) for v in idx):
+                        chk.ok(rule_name, fn, "%s@%d" % (nm, el.line), "bit scan of `%s` bounded by bn_bits(%s)" % (nm, nm), line=el.line)
+                    elif base in exceptions:
+                        chk.ok(rule_name, fn, "%s@%d" % (nm, el.line), "not claimed: " + exceptions[base], line=el.line)
+                    else:
+                        chk.fail(rule_name, fn, "%s@%s" % (nm, fn.fmt(c[2][1])[:20]), "the bits of `%s` are scanned with an index that does not derive from bn_bits(%s): values longer than the fixed bound lose their high bits" % (nm, nm), line=el.line)
+    return n
